@@ -64,7 +64,7 @@ package checkgroup
 //@ func New
 //@   trusted
 //@   pure
-//@   ensures result != nil && fresh(result) && !gerr(result) && !gmem(result)
+//@   ensures result != nil && fresh(result) && !gerr(result) && !gmem(result) && gadds(result) == 0 && !gunk(result)
 
 //@ ghostfield gadds int
 //@ ghostfield gunk bool
@@ -92,6 +92,7 @@ package checkgroup
 //@   ensures result.Err != nil ==> result.Membership != IsMember
 //@   ensures gerr(recv) ==> result.Err != nil || (gmem(recv) && result.Membership == IsMember)
 //@   ensures !gmem(recv) ==> result.Membership != IsMember
+//@   ensures gadds(recv) == 0 ==> result.Err == nil && result.Membership == NotMember
 
 //@ func Checkgroup.CheckFunc
 //@   trusted
